@@ -254,7 +254,7 @@ def apply_operator(draw, op, mol: Mol):
                 items.insert(draw(st.integers(0, len(items))), draw(st.sampled_from(["0", "1", "2.5"])))
             return text[:m.start(1)] + " ".join(items) + text[m.end(1):], "transition list of wrong length", "mol"
         k = draw(st.integers(0, len(items) - 1))
-        items[k] = "-" + (items[k] if float(items[k]) != 0 else "1")
+        items[k] = "-" + (items[k] if float(items[k]) != 0 else draw(st.sampled_from(["1", ".5", "2."])))
         return text[:m.start(1)] + " ".join(items) + text[m.end(1):], "negative list entry", "mol"
     if op == "negative_weight":
         ms = list(re.finditer(r"\[[$<>]\d*\|([^|\] ]+)\|\]", text))
@@ -267,7 +267,7 @@ def apply_operator(draw, op, mol: Mol):
         if not ms:
             return None
         m = draw(st.sampled_from(ms))
-        return text[:m.end()] + "|-" + draw(st.sampled_from(["1", "0.5", "3"])) + "|" + text[m.end():], "negative weight", "mol"
+        return text[:m.end()] + "|-" + draw(st.sampled_from(["1", "0.5", "3", ".5", ".1e1", "2.", "1e-3", "0.0001"])) + "|" + text[m.end():], "negative weight", "mol"
     if op == "text_after_mixture":
         tail = draw(st.sampled_from(["CC", "C", "{[][$]C[$][]}", "x", "[H]"]))
         return text + ".|" + draw(st.sampled_from(["50%", "500", "5e3"])) + "|" + tail, "text after mixture specifier", "mol_only"
